@@ -1,26 +1,59 @@
 ------------------------------ MODULE Machine ------------------------------
 (***************************************************************************)
 (* Small-step operational semantics of the executed subset of Penne        *)
-(* (C01, C10; also used by C08/C09/C05).  Written from the documented      *)
-(* semantics named in property C01: fixed-width wrapping integer           *)
-(* arithmetic and comparisons whose signedness follows the operand type,   *)
-(* primitive casts, forward gotos and block loops, calls and constants.    *)
+(* (C01, C10; also C08's non-interference).  Written from the documented   *)
+(* semantics named in property C01 and docs/features.md: fixed-width       *)
+(* wrapping integer arithmetic and comparisons whose signedness follows    *)
+(* the operand type, primitive casts, forward gotos and block loops,       *)
+(* auto-dereferencing pointers with explicit address assignment, arrays    *)
+(* and views with their lengths, structs and words, calls and constants.   *)
 (*                                                                         *)
-(* Values      [t |-> type, v |-> limbs]  (Wide.tla; bool and char8 are    *)
-(*             one limb), or UB.                                           *)
-(* Expressions [k |-> "lit", t, v] | [k |-> "var", x] | [k |-> "bin", op,  *)
-(*             l, r] | [k |-> "un", op, e] | [k |-> "as", t, e]            *)
-(*             | [k |-> "paren", e] | [k |-> "idx", x, i] | [k |-> "len",  *)
-(*             x] | [k |-> "arr", es]                                      *)
-(* Bodies      flat item sequences in the FlatBody vocabulary, each item   *)
-(*             one source line:  O C IO(c) EO EIO(c) IG(c,n) EG(n)         *)
-(*             EIG(c,n) G(n) L(n) LP  and  V(x,t,e)  S(x,e)  SI(x,i,e)     *)
-(*             P(e)  CALL(f,args,d)                                        *)
-(* Undefined behaviour (division by zero, MIN / -1, oversized shifts,      *)
-(* out-of-bounds indices, reads of undeclared variables) stops the machine *)
-(* with status "ub", after which nothing is required of the program.       *)
+(* Values   [t, v]: scalars t \in IntTypes \cup {"bool"} with v = limbs     *)
+(*          (Wide.tla); arrays [t |-> "array", v |-> elements]; structures *)
+(*          and words [t |-> "struct", n |-> name, v |-> members in        *)
+(*          declaration order]; pointers [t |-> "ptr", fr, x, u, p, ro] =  *)
+(*          the place "variable x (declaration serial u) of the frame with *)
+(*          identity fr, then the path p of element / member positions";   *)
+(*          ro marks a view (read-only reference); Uninit; UB.             *)
+(* Types    [k |-> "prim", t] | [k |-> "ptr", e] | [k |-> "array", n, e]   *)
+(*          | [k |-> "view", e] (the parameter type []T) | [k |-> "named", *)
+(*          n] | [k |-> "void"]                                            *)
+(* Expressions [k |-> "lit", t, v] | "var" x | "bin" op l r | "un" op e |  *)
+(*          "as" t e | "paren" e | "idx" x i | "len" x or r | "arr" es |   *)
+(*          "ref" x addr steps (addr = number of address markers, steps =  *)
+(*          [k |-> "i", e] element / [k |-> "m", m] member) | "st" n fs    *)
+(*          (structure literal, fs = [m, e]) | "call" f args | "sizeof" ty *)
+(* Bodies   flat item sequences in the FlatBody vocabulary, one source     *)
+(*          line each:  O C IO(c) EO EIO(c) IG(c,n) EG(n) EIG(c,n) G(n)    *)
+(*          L(n) LP  and  V(x,ty,e?)  S(x,e)  SI(x,i,e)  A(r,e)  P(e)      *)
+(*          CALL(f,args,d)                                                 *)
+(*                                                                         *)
+(* Memory.  A frame owns its variables; a pointer is a path to a place.    *)
+(* Reading through a pointer whose frame has returned, or whose variable   *)
+(* has gone out of scope (block left, loop iteration over), is undefined   *)
+(* behaviour, as are division by zero, MIN / -1, oversized shifts,         *)
+(* out-of-bounds indices and reads of uninitialised cells.  Undefined      *)
+(* behaviour stops the machine with status "ub", after which nothing is    *)
+(* required of the program.  Arguments for array-view and struct           *)
+(* parameters are read-only references to the caller's storage; words and  *)
+(* primitives are copied; pointer parameters receive the address the       *)
+(* caller wrote.  A write through a read-only reference, to a parameter or *)
+(* to a constant is not Penne (C08 rejects it): status "illegal".          *)
+(*                                                                         *)
+(* Autoderef.  For a place holding a value of type &^k T the expression    *)
+(* with d address markers denotes: d = k + 1 the address of the place      *)
+(* itself, d <= k the value after k - d dereferences (d = 0: the base      *)
+(* value).  On the left of `=` the target is the place after k - d         *)
+(* dereferences.  Steps [i] and .m apply after full dereference.           *)
+(*                                                                         *)
+(* Monitors (the machine invariants of DESIGN C01/C08, field `bad`):       *)
+(* every stored value fits the declared type of its cell; a goto only      *)
+(* increases the position and only leaves blocks; a call changes a         *)
+(* variable of a suspended frame only if some argument of that call is an  *)
+(* address (`&...`) from which the variable is reachable.                  *)
 (***************************************************************************)
 EXTENDS FlatBody, Wide
+Lay == INSTANCE Layout      \* named instance: Layout's Min/Max would clash with FiniteSetsExt in the MC modules
 
 IntTypes == {"i8", "i16", "i32", "i64", "i128", "u8", "u16", "u32", "u64", "u128", "usize"}
 SignedTypes == {"i8", "i16", "i32", "i64", "i128"}
@@ -31,13 +64,15 @@ Width(t) == CASE t \in {"i8", "u8", "char8", "bool"} -> 8
               [] t \in {"i128", "u128"} -> 128
 Signed(t) == t \in SignedTypes
 UB == [t |-> "ub", v |-> <<>>]
+Uninit == [t |-> "uninit", v |-> <<>>]
 IsUB(x) == x.t = "ub"
 Val(t, v) == [t |-> t, v |-> v]
 BoolVal(b) == [t |-> "bool", v |-> <<IF b THEN 1 ELSE 0>>]
 Truth(x) == x.v[1] = 1
+IsScalar(x) == x.t \in IntTypes \cup {"bool", "char8"}
 
 (***************************************************************************)
-(* Pure operators on values.                                               *)
+(* Pure operators on scalar values.                                        *)
 (***************************************************************************)
 BinOp(op, a, b) ==
     IF IsUB(a) \/ IsUB(b) THEN UB
@@ -78,31 +113,9 @@ Compare(op, a, b) ==
 CastTo(t, a) == IF IsUB(a) THEN UB ELSE Val(t, Resize(a.v, Width(t), Signed(a.t)))
 
 (***************************************************************************)
-(* Expression evaluation in an environment (a function from names to       *)
-(* values; arrays are values [t |-> "array", et, v |-> sequence of values]).*)
-(***************************************************************************)
-RECURSIVE Eval(_, _), EvalAll(_, _, _)
-Eval(e, env) ==
-    CASE e.k = "lit" -> Val(e.t, e.v)
-      [] e.k = "var" -> IF e.x \in DOMAIN env THEN env[e.x] ELSE UB
-      [] e.k = "paren" -> Eval(e.e, env)
-      [] e.k = "bin" -> BinOp(e.op, Eval(e.l, env), Eval(e.r, env))
-      [] e.k = "un" -> UnOp(e.op, Eval(e.e, env))
-      [] e.k = "as" -> CastTo(e.t, Eval(e.e, env))
-      [] e.k = "arr" -> LET vs == EvalAll(e.es, env, 1)
-                        IN IF \E i \in 1..Len(vs) : IsUB(vs[i]) THEN UB ELSE [t |-> "array", v |-> vs]
-      [] e.k = "idx" -> IF e.x \notin DOMAIN env THEN UB
-                        ELSE LET a == env[e.x]
-                                 i == Eval(e.i, env)
-                             IN IF IsUB(i) \/ a.t # "array" \/ ~FitsNat(i.v) THEN UB
-                                ELSE IF ToNat(i.v) >= Len(a.v) THEN UB ELSE a.v[ToNat(i.v) + 1]
-      [] e.k = "len" -> IF e.x \notin DOMAIN env \/ env[e.x].t # "array" THEN UB
-                        ELSE Val("usize", FromNat(Len(env[e.x].v), 64))
-EvalAll(es, env, i) == IF i > Len(es) THEN <<>> ELSE <<Eval(es[i], env)>> \o EvalAll(es, env, i + 1)
-EvalCond(c, env) == Compare(c.op, Eval(c.l, env), Eval(c.r, env))
-
-(***************************************************************************)
-(* Control flow on flat bodies.                                            *)
+(* Control flow on flat bodies: the declarative definitions (FlatBody's    *)
+(* label rule), and linear scans that the machine uses instead.            *)
+(* MC_MachineCF checks that they agree on every body up to the bound.      *)
 (***************************************************************************)
 \* end of the if/else chain that the part starting at p belongs to (last item of the chain)
 PartEnd(b, p) == IF b[p].k \in Openers THEN CloseOf(b, p) ELSE p
@@ -113,93 +126,379 @@ ChainEnd(b, p) == IF HasElsePart(b, p) THEN ChainEnd(b, PartEnd(b, p) + 1) ELSE 
 GotoTarget(b, p) == CHOOSE j \in LegalTargets(b, p) : TRUE
 \* the opener of the block that the closing brace at p closes
 OpenerOf(b, p) == CHOOSE o \in 1..p : b[o].k \in Openers /\ CloseOf(b, o) = p
-
-(***************************************************************************)
-(* The machine.  prog = [consts, fns]; fns[i] = [name, params, ret, body,  *)
-(* res (expression, present iff ret # "void")].                            *)
-(* m = [status, frames, out, fuel]; a frame = [f, pc, env, d].             *)
-(***************************************************************************)
-FnIndex(prog, name) == CHOOSE i \in 1..Len(prog.fns) : prog.fns[i].name = name
-RECURSIVE ConstEnv(_, _, _)
-ConstEnv(cs, i, env) == IF i > Len(cs) THEN env
-                        ELSE ConstEnv(cs, i + 1, (cs[i].x :> Eval(cs[i].e, env)) @@ env)
-EmptyEnv == [x \in {} |-> UB]
-Globals(prog) == ConstEnv(prog.consts, 1, EmptyEnv)
-MInit(prog, fuel) ==
-    LET g == Globals(prog)
-    IN [status |-> IF \E x \in DOMAIN g : IsUB(g[x]) THEN "ub" ELSE "run",
-        frames |-> <<[f |-> FnIndex(prog, "main"), pc |-> 1, env |-> g, d |-> ""]>>,
-        out |-> <<>>, fuel |-> fuel, exit |-> <<>>]
-
-Top(m) == m.frames[Len(m.frames)]
-SetTop(m, fr) == [m EXCEPT !.frames[Len(m.frames)] = fr]
-Bind(env, x, v) == (x :> v) @@ env
-RECURSIVE BindParams(_, _, _, _)
-BindParams(ps, vs, i, env) == IF i > Len(ps) THEN env ELSE BindParams(ps, vs, i + 1, Bind(env, ps[i].x, vs[i]))
-
-\* continue at position q of the current body
-Jump(m, q) == SetTop(m, [Top(m) EXCEPT !.pc = q])
-Stop(m, s) == [m EXCEPT !.status = s]
 \* the false path of an if-part starting at p: into its else-part, or past it
 FalsePath(b, p) == PartEnd(b, p) + 1
+
+RECURSIVE BlkScan(_, _, _), TgtScan(_, _, _, _, _)
+\* innermost opener around position j + 1, scanning backwards (d = closers still to be matched)
+BlkScan(b, j, d) == IF j = 0 THEN 0
+                    ELSE IF b[j].k = "C" THEN BlkScan(b, j - 1, d + 1)
+                    ELSE IF b[j].k \in Openers THEN (IF d = 0 THEN j ELSE BlkScan(b, j - 1, d - 1))
+                    ELSE BlkScan(b, j - 1, d)
+BlkFast(b, i) == BlkScan(b, i - 1, IF b[i].k = "C" THEN 1 ELSE 0)
+OpenFast(b, p) == BlkScan(b, p - 1, 0)
+\* the first label named n after position j - 1 that lies in a block enclosing the start
+\* (lvl = nesting relative to the start, mn = its minimum so far); 0 if there is none
+TgtScan(b, n, j, lvl, mn) ==
+    IF j > Len(b) THEN 0
+    ELSE IF b[j].k = "C" THEN TgtScan(b, n, j + 1, lvl - 1, IF lvl - 1 < mn THEN lvl - 1 ELSE mn)
+    ELSE IF b[j].k \in Openers THEN TgtScan(b, n, j + 1, lvl + 1, mn)
+    ELSE IF b[j].k = "L" /\ b[j].n = n /\ lvl = mn THEN j
+    ELSE TgtScan(b, n, j + 1, lvl, mn)
+TargetFast(b, i) == TgtScan(b, b[i].n, i + 1, 0, 0)
+\* position of the closing brace of the block opened at o; the function body (o = 0) ends after its last item
+EndOf(b, o) == IF o = 0 THEN Len(b) + 2 ELSE CloseFrom(b, o + 1, 0)
+
+(***************************************************************************)
+(* Declarations of structures and words; storage layout (Layout.tla).      *)
+(***************************************************************************)
+Structs(prog) == IF "structs" \in DOMAIN prog THEN prog.structs ELSE <<>>
+StructDecl(prog, n) == LET ss == Structs(prog) IN ss[CHOOSE i \in 1..Len(ss) : ss[i].name = n]
+MemberIndex(prog, n, mname) == LET d == StructDecl(prog, n)
+                               IN IF \E i \in 1..Len(d.ms) : d.ms[i].x = mname
+                                  THEN CHOOSE i \in 1..Len(d.ms) : d.ms[i].x = mname ELSE 0
+\* parameters of these types receive a read-only reference (a view)
+IsViewParam(prog, ty) == ty.k = "view" \/ (ty.k = "named" /\ StructDecl(prog, ty.n).kind = "struct")
+RECURSIVE LayoutOf(_, _), LayoutMembers(_, _, _)
+LayoutOf(prog, ty) ==
+    CASE ty.k = "prim" -> [k |-> "prim", t |-> ty.t]
+      [] ty.k = "ptr" -> [k |-> "ptr"]
+      [] ty.k = "array" -> [k |-> "array", n |-> ty.n, e |-> LayoutOf(prog, ty.e)]
+      [] ty.k = "named" -> LET d == StructDecl(prog, ty.n)
+                               ms == LayoutMembers(prog, d.ms, 1)
+                           IN IF d.kind = "word"
+                              THEN [k |-> "word", bytes |-> d.bits \div 8, malign |-> Lay!StructAlign(ms, 1, 1, "members")]
+                              ELSE [k |-> "struct", ms |-> ms]
+LayoutMembers(prog, ms, i) == IF i > Len(ms) THEN <<>> ELSE <<LayoutOf(prog, ms[i].ty)>> \o LayoutMembers(prog, ms, i + 1)
+\* `|:T|`; where the two admissible alignments of word members disagree the docs do not fix the value (unconstrained)
+SizeOfValue(prog, ty) == LET l == LayoutOf(prog, ty)
+                         IN IF Lay!SizeOfM(l, "declared") = Lay!SizeOfM(l, "members")
+                            THEN Val("usize", FromNat(Lay!SizeOfM(l, "declared"), 64)) ELSE UB
+RECURSIVE UninitOf(_, _), UninitMembers(_, _, _), TypeAt(_, _, _), Conforms(_, _, _), Rep(_, _)
+Rep(x, n) == IF n = 0 THEN <<>> ELSE <<x>> \o Rep(x, n - 1)
+UninitOf(prog, ty) ==
+    CASE ty.k = "array" -> [t |-> "array", v |-> Rep(UninitOf(prog, ty.e), ty.n)]
+      [] ty.k = "named" -> [t |-> "struct", n |-> ty.n, v |-> UninitMembers(prog, StructDecl(prog, ty.n).ms, 1)]
+      [] OTHER -> Uninit
+UninitMembers(prog, ms, i) == IF i > Len(ms) THEN <<>> ELSE <<UninitOf(prog, ms[i].ty)>> \o UninitMembers(prog, ms, i + 1)
+\* the declared type of the cell at path p inside a variable of type ty
+TypeAt(prog, ty, p) ==
+    IF p = <<>> THEN ty
+    ELSE IF ty.k = "array" THEN TypeAt(prog, ty.e, Tail(p))
+    ELSE IF ty.k = "named" THEN TypeAt(prog, StructDecl(prog, ty.n).ms[p[1]].ty, Tail(p))
+    ELSE [k |-> "none"]
+\* the value fits the declared type: scalars have exactly the limbs of their width
+Conforms(prog, x, ty) ==
+    IF x.t = "uninit" THEN TRUE
+    ELSE CASE ty.k = "prim" -> /\ x.t = ty.t /\ Len(x.v) = Limbs(Width(ty.t))
+                               /\ \A i \in 1..Len(x.v) : x.v[i] \in 0..255
+                               /\ (ty.t = "bool" => x.v[1] \in {0, 1})
+           [] ty.k = "ptr" -> x.t = "ptr"
+           [] ty.k = "view" -> x.t = "ptr" /\ x.ro
+           [] ty.k = "array" -> x.t = "array" /\ Len(x.v) = ty.n /\ \A i \in 1..Len(x.v) : Conforms(prog, x.v[i], ty.e)
+           [] ty.k = "named" -> LET d == StructDecl(prog, ty.n)
+                                IN /\ x.t = "struct" /\ x.n = ty.n /\ Len(x.v) = Len(d.ms)
+                                   /\ \A i \in 1..Len(x.v) : Conforms(prog, x.v[i], d.ms[i].ty)
+           [] OTHER -> FALSE
+
+(***************************************************************************)
+(* The machine.  prog = [structs, consts, fns]; fns[i] = [name, params,    *)
+(* ret, body, res (expression, present iff ret is not void)].              *)
+(* m = [status, frames, glob, out, fuel, exit, next, rv, bad]              *)
+(* a frame = [id, f, pc, env, d, nested, snap, reach]; an environment is a *)
+(* sequence of entries [x, v, ty, mut, u, blk, end].                       *)
+(***************************************************************************)
+MaxFrames == 12
+FnIndex(prog, name) == CHOOSE i \in 1..Len(prog.fns) : prog.fns[i].name = name
+Entry(x, v, ty, mut, u, blk, end) == [x |-> x, v |-> v, ty |-> ty, mut |-> mut, u |-> u, blk |-> blk, end |-> end]
+\* index of the (latest) entry for x, 0 if there is none
+Lookup(env, x) == LET S == {i \in 1..Len(env) : env[i].x = x}
+                  IN IF S = {} THEN 0 ELSE CHOOSE i \in S : \A j \in S : j <= i
+Top(m) == m.frames[Len(m.frames)]
+SetTop(m, fr) == [m EXCEPT !.frames[Len(m.frames)] = fr]
+Stop(m, s) == [m EXCEPT !.status = s]
+Flag(m, what) == [m EXCEPT !.bad = Append(@, what)]
+FrameIdx(m, fid) == LET S == {i \in 1..Len(m.frames) : m.frames[i].id = fid} IN IF S = {} THEN 0 ELSE CHOOSE i \in S : TRUE
+EnvOf(m, fid) == IF fid = 0 THEN m.glob ELSE LET i == FrameIdx(m, fid) IN IF i = 0 THEN <<>> ELSE m.frames[i].env
+
+Place(fr, x, u, p, ro) == [t |-> "ptr", v |-> <<>>, fr |-> fr, x |-> x, u |-> u, p |-> p, ro |-> ro]
+\* the place a name denotes: a variable of the running function, or a constant
+VarPlace(m, x) ==
+    LET env == IF Len(m.frames) = 0 THEN <<>> ELSE Top(m).env
+        i == Lookup(env, x)
+        g == Lookup(m.glob, x)
+    IN IF i # 0 THEN Place(Top(m).id, x, env[i].u, <<>>, ~env[i].mut)
+       ELSE IF g # 0 THEN Place(0, x, 0, <<>>, TRUE)
+       ELSE UB
+RECURSIVE ReadAt(_, _), UpdateAt(_, _, _)
+ReadAt(x, p) == IF p = <<>> THEN x
+                ELSE IF x.t \in {"array", "struct"} /\ p[1] \in 1..Len(x.v) THEN ReadAt(x.v[p[1]], Tail(p))
+                ELSE UB
+UpdateAt(x, p, new) == IF p = <<>> THEN new ELSE [x EXCEPT !.v[p[1]] = UpdateAt(@, Tail(p), new)]
+\* the value stored at a place; UB if the place no longer exists (dangling pointer)
+ReadPlace(m, pl) ==
+    IF pl.t # "ptr" THEN UB
+    ELSE LET env == EnvOf(m, pl.fr)
+             i == Lookup(env, pl.x)
+         IN IF i = 0 THEN UB ELSE IF env[i].u # pl.u THEN UB ELSE ReadAt(env[i].v, pl.p)
+WritePlace(m, pl, new) ==
+    LET f == FrameIdx(m, pl.fr)
+        i == Lookup(m.frames[f].env, pl.x)
+    IN [m EXCEPT !.frames[f].env[i].v = UpdateAt(@, pl.p, new)]
+DeclaredTypeAt(prog, m, pl) == LET env == EnvOf(m, pl.fr) IN TypeAt(prog, env[Lookup(env, pl.x)].ty, pl.p)
+RECURSIVE PtrDepth(_, _), Follow(_, _, _), FullDeref(_, _)
+\* k for a place holding a value of type &^k T
+PtrDepth(m, pl) == LET x == ReadPlace(m, pl) IN IF x.t = "ptr" THEN 1 + PtrDepth(m, x) ELSE 0
+Follow(m, pl, n) == IF n = 0 THEN pl ELSE LET x == ReadPlace(m, pl) IN IF x.t # "ptr" THEN UB ELSE Follow(m, x, n - 1)
+FullDeref(m, pl) == LET x == ReadPlace(m, pl) IN IF x.t = "ptr" THEN FullDeref(m, x) ELSE pl
+
+\* every reference form as [x, addr, steps]
+AsRef(e) == CASE e.k = "var" -> [x |-> e.x, addr |-> 0, steps |-> <<>>]
+              [] e.k = "idx" -> [x |-> e.x, addr |-> 0, steps |-> <<[k |-> "i", e |-> e.i]>>]
+              [] e.k = "S" -> [x |-> e.x, addr |-> 0, steps |-> <<>>]
+              [] e.k = "SI" -> [x |-> e.x, addr |-> 0, steps |-> <<[k |-> "i", e |-> e.i]>>]
+              [] e.k = "len" -> IF "r" \in DOMAIN e THEN e.r ELSE [x |-> e.x, addr |-> 0, steps |-> <<>>]
+              [] OTHER -> [x |-> e.x, addr |-> e.addr, steps |-> e.steps]
+IsRefExpr(e) == e.k \in {"var", "idx", "ref"}
+
+R(m, x) == [m |-> m, v |-> x]
+Alive(r) == r.m.status = "run" /\ ~IsUB(r.v)
+RECURSIVE PtrsIn(_), Closure(_, _, _), EnvsOf(_, _)
+PtrsIn(x) == IF x.t = "ptr" THEN {x}
+             ELSE IF x.t \in {"array", "struct"} THEN UNION {PtrsIn(x.v[i]) : i \in 1..Len(x.v)} ELSE {}
+\* the variables <<frame, name>> reachable from a set of pointers
+Closure(m, todo, seen) ==
+    IF todo = {} THEN seen
+    ELSE LET p == CHOOSE p \in todo : TRUE
+             key == <<p.fr, p.x>>
+         IN IF key \in seen THEN Closure(m, todo \ {p}, seen)
+            ELSE LET env == EnvOf(m, p.fr)
+                     i == Lookup(env, p.x)
+                 IN Closure(m, (todo \ {p}) \cup (IF i = 0 THEN {} ELSE PtrsIn(env[i].v)), seen \cup {key})
+EnvsOf(frames, i) == IF i > Len(frames) THEN <<>> ELSE <<[id |-> frames[i].id, env |-> frames[i].env]>> \o EnvsOf(frames, i + 1)
+\* variables of suspended frames that differ from the snapshot taken when the call was entered
+Changed(snap, frames) ==
+    UNION { { <<snap[j].id, snap[j].env[i].x>> : i \in {i \in 1..Len(snap[j].env) : snap[j].env[i].v # frames[j].env[i].v} } : j \in 1..Len(snap) }
+
+RECURSIVE Eval(_, _, _), EvalAll(_, _, _, _), Steps(_, _, _, _, _), Fields(_, _, _, _, _, _),
+          BindArgs(_, _, _, _, _, _, _, _), MStep(_, _), RunNested(_, _, _)
+
+\* apply element / member steps to a place, each after full dereference; -> [m, v |-> place or UB]
+Steps(prog, m, pl, steps, i) ==
+    IF pl.t # "ptr" THEN R(m, UB)
+    ELSE IF i > Len(steps) THEN R(m, pl)
+    ELSE LET base == FullDeref(m, pl)
+             bv == ReadPlace(m, base)
+             s == steps[i]
+         IN IF s.k = "m"
+            THEN LET j == IF bv.t = "struct" THEN MemberIndex(prog, bv.n, s.m) ELSE 0
+                 IN IF j = 0 THEN R(m, UB) ELSE Steps(prog, m, [base EXCEPT !.p = Append(@, j)], steps, i + 1)
+            ELSE LET ix == Eval(prog, m, s.e)
+                 IN IF ~Alive(ix) THEN R(ix.m, UB)
+                    ELSE IF bv.t # "array" \/ ~IsScalar(ix.v) THEN R(ix.m, UB)
+                    ELSE IF ~FitsNat(ix.v.v) THEN R(ix.m, UB)
+                    ELSE IF ToNat(ix.v.v) >= Len(bv.v) THEN R(ix.m, UB)
+                    ELSE Steps(prog, ix.m, [base EXCEPT !.p = Append(@, ToNat(ix.v.v) + 1)], steps, i + 1)
+\* the place a reference expression denotes after its steps (before the final dereferences)
+RefPlace(prog, m, r) == Steps(prog, m, VarPlace(m, r.x), r.steps, 1)
+\* the value of a reference expression with r.addr address markers
+RefValue(prog, m, r) ==
+    LET a == RefPlace(prog, m, r)
+    IN IF ~Alive(a) THEN R(a.m, UB)
+       ELSE LET k == PtrDepth(a.m, a.v)
+            IN IF r.addr > k + 1 THEN R(a.m, UB)
+               ELSE IF r.addr = k + 1 THEN R(a.m, a.v)
+               ELSE LET x == ReadPlace(a.m, Follow(a.m, a.v, k - r.addr))
+                    IN IF x.t = "uninit" THEN R(a.m, UB) ELSE R(a.m, x)
+
+Eval(prog, m, e) ==
+    CASE e.k = "lit" -> R(m, Val(e.t, e.v))
+      [] e.k \in {"var", "idx", "ref"} -> RefValue(prog, m, AsRef(e))
+      [] e.k = "paren" -> Eval(prog, m, e.e)
+      [] e.k = "bin" -> LET a == Eval(prog, m, e.l)
+                        IN IF ~Alive(a) THEN R(a.m, UB)
+                           ELSE LET b == Eval(prog, a.m, e.r)
+                                IN IF ~Alive(b) THEN R(b.m, UB) ELSE R(b.m, BinOp(e.op, a.v, b.v))
+      [] e.k = "un" -> LET a == Eval(prog, m, e.e) IN IF ~Alive(a) THEN R(a.m, UB) ELSE R(a.m, UnOp(e.op, a.v))
+      [] e.k = "as" -> LET a == Eval(prog, m, e.e) IN IF ~Alive(a) THEN R(a.m, UB) ELSE R(a.m, CastTo(e.t, a.v))
+      [] e.k = "arr" -> LET a == EvalAll(prog, m, e.es, 1)
+                        IN IF ~a.ok THEN R(a.m, UB) ELSE R(a.m, [t |-> "array", v |-> a.vs])
+      [] e.k = "st" -> LET a == Fields(prog, m, e.n, e.fs, 1, UninitMembers(prog, StructDecl(prog, e.n).ms, 1))
+                       IN IF ~a.ok THEN R(a.m, UB) ELSE R(a.m, [t |-> "struct", n |-> e.n, v |-> a.vs])
+      [] e.k = "len" -> LET a == RefPlace(prog, m, AsRef(e))
+                        IN IF ~Alive(a) THEN R(a.m, UB)
+                           ELSE LET bv == ReadPlace(a.m, FullDeref(a.m, a.v))
+                                IN IF bv.t = "array" THEN R(a.m, Val("usize", FromNat(Len(bv.v), 64))) ELSE R(a.m, UB)
+      [] e.k = "sizeof" -> R(m, SizeOfValue(prog, e.ty))
+      [] e.k = "call" ->
+           LET depth == Len(m.frames)
+               en == BindArgs(prog, [m EXCEPT !.next = @ + 1], prog.fns[FnIndex(prog, e.f)].params, e.args, 1, <<>>, m.next, {})
+           IN IF en.m.status # "run" THEN R(en.m, UB)
+              ELSE IF ~en.ok THEN R(Stop(en.m, "ub"), UB)
+              ELSE IF depth >= MaxFrames THEN R(Stop(en.m, "fuel"), UB)
+              ELSE LET fin == RunNested(prog, [en.m EXCEPT !.frames = Append(@,
+                                   [id |-> m.next, f |-> FnIndex(prog, e.f), pc |-> 1, env |-> en.env, d |-> "", nested |-> TRUE,
+                                    snap |-> EnvsOf(en.m.frames, 1), reach |-> Closure(en.m, en.seeds, {})])], depth)
+                   IN IF fin.status # "run" THEN R(fin, UB) ELSE R(fin, fin.rv)
+EvalAll(prog, m, es, i) ==
+    IF i > Len(es) THEN [m |-> m, ok |-> TRUE, vs |-> <<>>]
+    ELSE LET a == Eval(prog, m, es[i])
+         IN IF ~Alive(a) THEN [m |-> a.m, ok |-> FALSE, vs |-> <<>>]
+            ELSE LET rest == EvalAll(prog, a.m, es, i + 1)
+                 IN [m |-> rest.m, ok |-> rest.ok, vs |-> <<a.v>> \o rest.vs]
+\* members of a structure literal in written order, stored at their declared position
+Fields(prog, m, n, fs, i, acc) ==
+    IF i > Len(fs) THEN [m |-> m, ok |-> TRUE, vs |-> acc]
+    ELSE LET a == Eval(prog, m, fs[i].e)
+             j == MemberIndex(prog, n, fs[i].m)
+         IN IF ~Alive(a) \/ j = 0 THEN [m |-> a.m, ok |-> FALSE, vs |-> acc]
+            ELSE Fields(prog, a.m, n, fs, i + 1, [acc EXCEPT ![j] = a.v])
+EvalCond(prog, m, c) ==
+    LET a == Eval(prog, m, c.l)
+    IN IF ~Alive(a) THEN R(a.m, UB)
+       ELSE LET b == Eval(prog, a.m, c.r) IN IF ~Alive(b) THEN R(b.m, UB) ELSE R(b.m, Compare(c.op, a.v, b.v))
+
+\* bind arguments to parameters, left to right; -> [m, ok, env, seeds (the addresses the caller wrote)]
+BindArgs(prog, m, ps, args, i, env, fid, seeds) ==
+    IF i > Len(ps) THEN [m |-> m, ok |-> TRUE, env |-> env, seeds |-> seeds]
+    ELSE LET p == ps[i]
+             a == args[i]
+             fail(mm) == [m |-> mm, ok |-> FALSE, env |-> env, seeds |-> seeds]
+         IN IF IsViewParam(prog, p.ty)
+            THEN IF IsRefExpr(a) /\ AsRef(a).addr = 0
+                 THEN \* a view of the caller's storage
+                      LET s == RefPlace(prog, m, AsRef(a))
+                          base == IF Alive(s) THEN FullDeref(s.m, s.v) ELSE UB
+                      IN IF ~Alive(s) THEN fail(s.m)
+                         ELSE IF ReadPlace(s.m, base).t \notin {"array", "struct"} THEN fail(s.m)
+                         ELSE BindArgs(prog, s.m, ps, args, i + 1,
+                                       Append(env, Entry(p.x, [base EXCEPT !.ro = TRUE], [k |-> "view", e |-> p.ty], FALSE, fid, 0, 0)), fid, seeds)
+                 ELSE \* a view of a temporary that lives as long as the call
+                      LET r == Eval(prog, m, a)
+                          tmp == "$" \o p.x
+                      IN IF ~Alive(r) THEN fail(r.m)
+                         ELSE BindArgs(prog, r.m, ps, args, i + 1,
+                                       env \o <<Entry(tmp, r.v, [k |-> "temp"], FALSE, fid, 0, 0),
+                                                Entry(p.x, Place(fid, tmp, fid, <<>>, TRUE), [k |-> "view", e |-> p.ty], FALSE, fid, 0, 0)>>,
+                                       fid, seeds)
+            ELSE LET r == Eval(prog, m, a)
+                 IN IF ~Alive(r) THEN fail(r.m)
+                    ELSE BindArgs(prog, r.m, ps, args, i + 1, Append(env, Entry(p.x, r.v, p.ty, FALSE, fid, 0, 0)), fid,
+                                  IF r.v.t = "ptr" /\ a.k = "ref" THEN seeds \cup {r.v} ELSE seeds)
+
+\* leave scopes: only variables whose block still encloses position q survive
+Prune(env, q) == SelectSeq(env, LAMBDA en : en.end = 0 \/ (en.blk < q /\ q < en.end))
+Jump(m, q) == SetTop(m, [Top(m) EXCEPT !.pc = q, !.env = Prune(@, q)])
+Next1(m) == SetTop(m, [Top(m) EXCEPT !.pc = @ + 1])
+
+\* `&^d x steps = value`
+Assign(prog, m, r, val) ==
+    LET a == RefPlace(prog, m, r)
+    IN IF a.m.status # "run" THEN a.m
+       ELSE IF IsUB(a.v) THEN Stop(a.m, "ub")
+       ELSE LET k == PtrDepth(a.m, a.v)
+                target == IF r.addr > k THEN UB ELSE Follow(a.m, a.v, k - r.addr)
+            IN IF r.addr > k THEN Stop(a.m, "stuck")
+               ELSE IF target.t # "ptr" THEN Stop(a.m, "ub")
+               ELSE IF IsUB(ReadPlace(a.m, target)) THEN Stop(a.m, "ub")
+               ELSE IF target.ro THEN Stop(a.m, "illegal")
+               ELSE LET m2 == WritePlace(a.m, target, val)
+                    IN IF Conforms(prog, val, DeclaredTypeAt(prog, a.m, target)) THEN m2 ELSE Flag(m2, "width")
 
 MStep(prog, m) ==
     LET fr == Top(m)
         fn == prog.fns[fr.f]
         b == fn.body
         pc == fr.pc
-        env == fr.env
     IN IF m.fuel = 0 THEN Stop(m, "fuel")
        ELSE LET m1 == [m EXCEPT !.fuel = @ - 1] IN
        IF pc > Len(b)
        THEN \* return
-            LET rv == IF fn.ret = "void" THEN UB ELSE Eval(fn.res, env)
-            IN IF fn.ret # "void" /\ IsUB(rv) THEN Stop(m1, "ub")
-               ELSE IF Len(m.frames) = 1
-                    THEN [m1 EXCEPT !.status = "done", !.exit = IF fn.ret = "void" THEN <<0>> ELSE rv.v]
-                    ELSE LET caller == m.frames[Len(m.frames) - 1]
-                             env2 == IF fr.d = "" THEN caller.env ELSE Bind(caller.env, fr.d, rv)
-                         IN [m1 EXCEPT !.frames = SubSeq(m.frames, 1, Len(m.frames) - 2)
-                                                    \o <<[caller EXCEPT !.env = env2, !.pc = @ + 1]>>]
+            LET r == IF fn.ret.k = "void" THEN R(m1, Uninit) ELSE Eval(prog, m1, fn.res)
+            IN IF r.m.status # "run" THEN r.m
+               ELSE IF IsUB(r.v) THEN Stop(r.m, "ub")
+               ELSE LET mm == r.m
+                        n == Len(mm.frames)
+                        me == Top(mm)
+                    IN IF n = 1
+                       THEN [mm EXCEPT !.status = "done", !.exit = IF fn.ret.k = "void" THEN <<0>> ELSE r.v.v]
+                       ELSE LET lower == SubSeq(mm.frames, 1, n - 1)
+                                ch == Changed(me.snap, lower) \ me.reach
+                                mon == IF ch = {} THEN mm ELSE Flag(mm, "nonint")
+                            IN IF me.nested THEN [mon EXCEPT !.frames = lower, !.rv = r.v]
+                               ELSE LET back == [mon EXCEPT !.frames = [lower EXCEPT ![n - 1].pc = @ + 1]]
+                                    IN IF me.d = "" THEN back
+                                       ELSE Assign(prog, back, [x |-> me.d, addr |-> 0, steps |-> <<>>], r.v)
        ELSE LET it == b[pc] IN
-            CASE it.k \in {"O", "EO", "L"} -> Jump(m1, pc + 1)
-              [] it.k = "C" -> IF b[OpenerOf(b, pc)].k \in IfKinds /\ HasElsePart(b, OpenerOf(b, pc))
-                               THEN Jump(m1, ChainEnd(b, OpenerOf(b, pc)) + 1)      \* skip the else-parts
-                               ELSE Jump(m1, pc + 1)
+            CASE it.k \in {"O", "EO", "L"} -> Next1(m1)
+              [] it.k = "C" -> LET o == OpenFast(b, pc)
+                               IN IF b[o].k \in IfKinds /\ HasElsePart(b, o)
+                                  THEN Jump(m1, ChainEnd(b, o) + 1)      \* skip the else-parts
+                                  ELSE Jump(m1, pc + 1)
               [] it.k \in {"IO", "EIO"} ->
-                   LET c == EvalCond(it.c, env)
-                   IN IF IsUB(c) THEN Stop(m1, "ub")
-                      ELSE IF Truth(c) THEN Jump(m1, pc + 1) ELSE Jump(m1, FalsePath(b, pc))
-              [] it.k \in {"IG", "EIG"} ->
-                   LET c == EvalCond(it.c, env)
-                   IN IF IsUB(c) THEN Stop(m1, "ub")
-                      ELSE IF Truth(c) THEN Jump(m1, GotoTarget(b, pc)) ELSE Jump(m1, pc + 1)
-              [] it.k \in {"G", "EG"} -> Jump(m1, GotoTarget(b, pc))
-              [] it.k = "LP" -> Jump(m1, BlockOf(b, pc) + 1)
-              [] it.k = "V" -> LET v == Eval(it.e, env)
-                               IN IF IsUB(v) THEN Stop(m1, "ub")
-                                  ELSE SetTop(m1, [fr EXCEPT !.env = Bind(env, it.x, v), !.pc = pc + 1])
-              [] it.k = "S" -> LET v == Eval(it.e, env)
-                               IN IF IsUB(v) \/ it.x \notin DOMAIN env THEN Stop(m1, "ub")
-                                  ELSE SetTop(m1, [fr EXCEPT !.env = Bind(env, it.x, v), !.pc = pc + 1])
-              [] it.k = "SI" -> LET v == Eval(it.e, env)
-                                    i == Eval(it.i, env)
-                                IN IF IsUB(v) \/ IsUB(i) \/ it.x \notin DOMAIN env THEN Stop(m1, "ub")
-                                   ELSE IF ~FitsNat(i.v) \/ ToNat(i.v) >= Len(env[it.x].v) THEN Stop(m1, "ub")
-                                   ELSE SetTop(m1, [fr EXCEPT !.env = Bind(env, it.x, [env[it.x] EXCEPT !.v[ToNat(i.v) + 1] = v]),
-                                                              !.pc = pc + 1])
-              [] it.k = "P" -> LET v == Eval(it.e, env)
-                               IN IF IsUB(v) THEN Stop(m1, "ub")
-                                  ELSE [Jump(m1, pc + 1) EXCEPT !.out = Append(@, v)]
+                   LET c == EvalCond(prog, m1, it.c)
+                   IN IF c.m.status # "run" THEN c.m
+                      ELSE IF IsUB(c.v) THEN Stop(c.m, "ub")
+                      ELSE IF Truth(c.v) THEN Next1(c.m) ELSE Jump(c.m, FalsePath(b, pc))
+              [] it.k \in {"IG", "EIG", "G", "EG"} ->
+                   LET c == IF it.k \in {"G", "EG"} THEN R(m1, BoolVal(TRUE)) ELSE EvalCond(prog, m1, it.c)
+                       q == TargetFast(b, pc)
+                   IN IF c.m.status # "run" THEN c.m
+                      ELSE IF IsUB(c.v) THEN Stop(c.m, "ub")
+                      ELSE IF ~Truth(c.v) THEN Next1(c.m)
+                      ELSE IF q = 0 THEN Stop(c.m, "stuck")
+                      ELSE LET j == Jump(c.m, q)
+                           IN IF q > pc /\ Encloses(b, BlkFast(b, q), pc) THEN j ELSE Flag(j, "goto")
+              [] it.k = "LP" -> LET o == BlkFast(b, pc)
+                                IN SetTop(m1, [fr EXCEPT !.pc = o + 1, !.env = SelectSeq(@, LAMBDA en : en.blk # o \/ en.end = 0)])
+              [] it.k = "V" ->
+                   LET r == IF "e" \in DOMAIN it THEN Eval(prog, m1, it.e) ELSE R(m1, UninitOf(prog, it.ty))
+                       o == BlkFast(b, pc)
+                   IN IF r.m.status # "run" THEN r.m
+                      ELSE IF IsUB(r.v) THEN Stop(r.m, "ub")
+                      ELSE LET mm == r.m
+                               m2 == Next1([mm EXCEPT !.next = @ + 1,
+                                                      !.frames[Len(mm.frames)].env = Append(@, Entry(it.x, r.v, it.ty, TRUE, mm.next, o, EndOf(b, o)))])
+                           IN IF Conforms(prog, r.v, it.ty) THEN m2 ELSE Flag(m2, "width")
+              [] it.k \in {"S", "SI", "A"} ->
+                   LET r == Eval(prog, m1, it.e)
+                   IN IF r.m.status # "run" THEN r.m
+                      ELSE IF IsUB(r.v) THEN Stop(r.m, "ub")
+                      ELSE LET m2 == Assign(prog, r.m, IF it.k = "A" THEN it.r ELSE AsRef(it), r.v)
+                           IN IF m2.status # "run" THEN m2 ELSE Next1(m2)
+              [] it.k = "P" -> LET r == Eval(prog, m1, it.e)
+                               IN IF r.m.status # "run" THEN r.m
+                                  ELSE IF IsUB(r.v) THEN Stop(r.m, "ub")
+                                  ELSE IF ~IsScalar(r.v) THEN Stop(r.m, "stuck")
+                                  ELSE [Next1(r.m) EXCEPT !.out = Append(@, r.v)]
               [] it.k = "CALL" ->
-                   LET vs == EvalAll(it.args, env, 1)
-                       g == FnIndex(prog, it.f)
-                   IN IF \E i \in 1..Len(vs) : IsUB(vs[i]) THEN Stop(m1, "ub")
-                      ELSE IF Len(m.frames) >= 12 THEN Stop(m1, "fuel")
-                      ELSE [m1 EXCEPT !.frames = Append(@, [f |-> g, pc |-> 1, d |-> it.d,
-                                                            env |-> BindParams(prog.fns[g].params, vs, 1, Globals(prog))])]
+                   LET g == FnIndex(prog, it.f)
+                       en == BindArgs(prog, [m1 EXCEPT !.next = @ + 1], prog.fns[g].params, it.args, 1, <<>>, m1.next, {})
+                   IN IF en.m.status # "run" THEN en.m
+                      ELSE IF ~en.ok THEN Stop(en.m, "ub")
+                      ELSE IF Len(m.frames) >= MaxFrames THEN Stop(en.m, "fuel")
+                      ELSE [en.m EXCEPT !.frames = Append(@, [id |-> m1.next, f |-> g, pc |-> 1, env |-> en.env, d |-> it.d, nested |-> FALSE,
+                                                            snap |-> EnvsOf(en.m.frames, 1), reach |-> Closure(en.m, en.seeds, {})])]
+              [] OTHER -> Stop(m1, "stuck")
+\* run until the frame pushed on top of `depth` frames has returned
+RunNested(prog, m, depth) == IF m.status # "run" \/ Len(m.frames) <= depth THEN m ELSE RunNested(prog, MStep(prog, m), depth)
+
+\* constants: evaluated in the order given, each seeing the earlier ones
+RECURSIVE ConstEnv(_, _, _, _)
+ConstEnv(prog, cs, i, m) ==
+    IF i > Len(cs) \/ m.status # "run" THEN m
+    ELSE LET r == Eval(prog, m, cs[i].e)
+             ty == IF "ty" \in DOMAIN cs[i] THEN cs[i].ty ELSE [k |-> "prim", t |-> cs[i].t]
+         IN IF ~Alive(r) THEN Stop(r.m, "ub")
+            ELSE ConstEnv(prog, cs, i + 1, [r.m EXCEPT !.glob = Append(@, Entry(cs[i].x, r.v, ty, FALSE, 0, 0, 0))])
+MInit(prog, fuel) ==
+    LET m0 == [status |-> "run", frames |-> <<>>, glob |-> <<>>, out |-> <<>>, fuel |-> fuel, exit |-> <<>>,
+               next |-> 2, rv |-> Uninit, bad |-> <<>>]
+        g == ConstEnv(prog, prog.consts, 1, m0)
+    IN [g EXCEPT !.frames = <<[id |-> 1, f |-> FnIndex(prog, "main"), pc |-> 1, env |-> <<>>, d |-> "", nested |-> FALSE,
+                              snap |-> <<>>, reach |-> {}]>>]
 \* the value a print statement shows: the 128-bit pattern of the value extended by its own signedness
-Shown(v) == IF v.t = "bool" THEN v.v ELSE Resize(v.v, 128, Signed(v.t))
+Shown(x) == IF x.t = "bool" THEN x.v ELSE Resize(x.v, 128, Signed(x.t))
 
 RECURSIVE RunFrom(_, _)
 \* run to completion (used by the case-emitting configurations; bounded by fuel)
